@@ -20,6 +20,7 @@ RULE = (
     "max-log marginals, = the one-iteration closed form with the configured scaling/offset, and invariant under positive rescaling. Distinct = (decoder set-up, input vector); "
     "non-trivial = non-zero message / random real vector."
     " Added after the seeded-fault rounds: 16 generated trees and chain trees with interleaved check degrees in both tiers; one decoder object across batch sizes 1, all, 2, 5, 1, all; permuted 3-D views."
+    " Round 5: Wagner inputs with ties (an exact 0.0 / -0.0, two equal magnitudes, small integers) judged by 'attains the maximum correlation'; plain call - call with return_soft / return_errors - plain call on one decoder object must answer in the same form with the same message."
 )
 ASSUMPTIONS = [
     "tree clauses draw inputs with sum|L| <= 7 (exact arctanh; its tanh clamp 0.999 bites at ~7.6) and <= 2 (Taylor variant, an approximation by design)",
@@ -117,6 +118,24 @@ def run_unit(ctx, u):
                     ctx.check(ok, "clean decode", f"{name}|{fam}|clean decode|wrong message after a call with another batch size", setup=label, batch=bs)
                 except Exception as e:  # noqa: BLE001
                     ctx.violation(f"{name}|{fam}|clean decode|raised:{type(e).__name__} after a call with another batch size", setup=label, batch=bs, error=str(e)[:200])
+            # optional keywords are per call: plain call, a call with the option, plain call again -- the two plain calls must
+            # answer in the same form (tensor / tuple) with the same, correct message
+            for opt in ("return_soft", "return_errors"):
+                ctx.case("clean-option-history", name, label, opt)
+                try:
+                    before = dec2(llr[:3])
+                    try:
+                        dec2(llr[:3], **{opt: True})
+                    except Exception:  # noqa: BLE001 - a decoder may reject an option it does not know
+                        ctx.skip(f"option {opt} rejected")
+                        continue
+                    after = dec2(llr[:3])
+                    same_form = type(before) is type(after) and (not isinstance(before, tuple) or len(before) == len(after))
+                    b0, a0 = [t[0] if isinstance(t, tuple) else t for t in (before, after)]
+                    ok = same_form and tuple(a0.shape) == tuple(b0.shape) and bool(torch.equal(a0, b0)) and bool((a0.double().round() == msgs[:3].double()).all())
+                    ctx.check(ok, "clean decode", f"{name}|{fam}|clean decode|plain call answers differently after a call with an option", setup=label, option=opt, before=type(before).__name__, after=type(after).__name__)
+                except Exception as e:  # noqa: BLE001
+                    ctx.violation(f"{name}|{fam}|clean decode|raised:{type(e).__name__} around a call with an option", setup=label, option=opt, error=str(e)[:200])
             if M >= 4:
                 m4 = (M // 2) * 2
                 x3 = llr[:m4].reshape(2, m4 // 2, n)
@@ -171,6 +190,40 @@ def run_unit(ctx, u):
                     ctx.violation(f"wagner|spc,{layout}|wagner:soft-ML|not the maximum-correlation even-weight word", k=k, y=Y[i].tolist(), decoded=out[i], expected=exp[i])
                 else:
                     ctx.ok("wagner:soft-ML", M)
+            # inputs with ties: an exact 0.0 in one (or every) position, equal magnitudes in two positions. The ML word is
+            # not unique there, so the oracle is "the returned word attains the maximum correlation"
+            ties = []
+            for j in range(120 if q else 1500):
+                y = np.array([rng.gauss(0, 1) * rng.choice([0.1, 1, 5]) for _ in range(n)])
+                mode = j % 4
+                if mode in (0, 1):
+                    y[rng.randrange(n)] = 0.0
+                if mode == 1:
+                    y[rng.randrange(n)] = -0.0
+                if mode == 2 and n >= 2:
+                    a_, b_ = rng.sample(range(n), 2)
+                    y[b_] = -y[a_] if rng.random() < 0.5 else y[a_]
+                if mode == 3:
+                    y = np.round(y)  # small integers: many zeros and repeated magnitudes
+                ties.append(y)
+            T = np.array(ties, dtype=np.float32).astype(np.float64)
+            tmax = ((1 - 2 * words) @ T.T).max(axis=0)
+            try:
+                outt = dec(torch.tensor(T, dtype=torch.float32))
+                if tuple(outt.shape) != (len(ties), k):
+                    ctx.violation("wagner|spc,ties|wagner:soft-ML|wrong output shape", k=k, got=list(outt.shape))
+                else:
+                    msg = outt.double().numpy()
+                    cw = np.concatenate([msg, msg.sum(axis=1, keepdims=True) % 2], axis=1)
+                    got = ((1 - 2 * cw) * T).sum(axis=1)
+                    badt = np.nonzero((got < tmax - 1e-6) | ~np.isin(msg, (0.0, 1.0)).all(axis=1))[0]
+                    ctx.case("wagner-ties", k, float(T.sum()))
+                    ctx.ok("wagner:soft-ML", len(ties) - len(badt))
+                    if len(badt):
+                        i = int(badt[0])
+                        ctx.violation("wagner|spc,ties (zero or equal magnitudes)|wagner:soft-ML|not a maximum-correlation even-weight word", k=k, y=T[i].tolist(), decoded=msg[i].tolist(), correlation=float(got[i]), maximum=float(tmax[i]))
+            except Exception as e:  # noqa: BLE001
+                ctx.violation(f"wagner|spc,ties|wagner:soft-ML|raised:{type(e).__name__}", k=k, error=str(e)[:200])
             # return_errors: flipped positions are consistent with the decoded word
             try:
                 d2, e2 = dec(yt[:20], return_errors=True)
